@@ -122,6 +122,12 @@ def build(run):
         return req_by_ref.get(ref)
     phase = None
     cur_session = -1
+    # closed-loop extras (tape of the Sim model): what handlers did to the execution switches at
+    # the two hook sites where the model admits it, the fundamentals recorded at clock steps
+    in_hook = None          # ("exec", fill dict) | ("step", market id) while inside such a dispatch
+    fund_pre = None
+    b.fund0 = {}
+    b.unsupported = []      # reasons why the closed-loop model does not apply to this run
     n_mk = len(markets)
     begin_seen = 0
     pending_samples = 0
@@ -141,9 +147,19 @@ def build(run):
                 tr.append("%s %d %d" % (key[0], key[1], key[2]))
         elif k == "tick":
             tr.append("tick %d" % ev[1])
+            if cur is None:
+                b.fund0[ev[1]] = ev[3]
+            else:
+                cur.setdefault("fund", {})[ev[1]] = ev[3]
         elif k == "setRunning":
             if ev[3] == 0:
                 tr.append("setRunning %d %s" % (ev[1], b2s(ev[2])))
+            elif in_hook is not None and in_hook[0] == "exec":
+                in_hook[1].setdefault("writes", []).append((ev[1], ev[2]))
+            elif in_hook is not None and in_hook[0] == "step" and cur is not None:
+                cur.setdefault("resfx", {}).setdefault(in_hook[1], {"flag": False, "writes": []})["writes"].append((ev[1], ev[2]))
+            else:
+                b.unsupported.append("running switch written inside another hook")
         elif k == "hook":
             typ = ev[1]
             if typ == "session_before":
@@ -158,6 +174,7 @@ def build(run):
                     steps.append(cur)
                     cur_round = None
                 tr.append("hookStepBefore %d %d" % (ev[2], ev[3]))
+                in_hook = ("step", ev[2])
             elif typ == "market_after":
                 if cur is not None:
                     cur["closed"] = True
@@ -174,11 +191,27 @@ def build(run):
                 tr.append("hookCancelAfter %d %d" % (cancellog_ref.get(id(ev[2]), -1), ev[3]))
             elif typ == "execution_after":
                 tr.append("hookExecAfter %d %d" % (ev[2], ev[3]))
+                fd = None
+                if cur_req is not None:
+                    fd = next((f for f in cur_req.get("fills", []) if f["ref"] == ev[2]), None)
+                in_hook = ("exec", fd if fd is not None else {})
+        elif k == "fund.pre":
+            fund_pre = ev
+        elif k == "fund.post":
+            if fund_pre is not None and cur is not None:
+                for mk_id, v in ev[3].items():
+                    if fund_pre[3].get(mk_id) != v:
+                        cur.setdefault("resfx", {}).setdefault(ev[1], {"flag": False, "writes": []}).setdefault("fund", []).append((mk_id, v))
+            fund_pre = None
         elif k == "hookret":
+            in_hook = None
             if ev[1] == "market_before":
                 before, after = ev[3], ev[4]
                 if (not before[0]) and after[0] and cur is not None:
                     cur["res"].append(ev[2])
+                    cur.setdefault("resfx", {}).setdefault(ev[2], {"flag": False, "writes": []})["flag"] = True
+                if before[0] and not after[0]:
+                    b.unsupported.append("execution flag switched off by a before-step handler")
             elif ev[1] == "execution_after":
                 before, after = ev[3], ev[4]
                 if before[0] and not after[0] and cur_req is not None and cur_req.get("fills"):
@@ -215,6 +248,9 @@ def build(run):
         elif k == "call.add":
             tr.append("addOrder %d %d" % (ev[1], ev[2]))
             cur_req = req_by_ref.get(ev[2], cur_req)
+            if cur_req is not None:
+                cur_req["call"] = ev[4]
+                cur_req["call_market"] = ev[1]
         elif k == "ret.add":
             orderlog_ref[id(ev[3])] = ev[2]
             if ev[2] in req_by_ref:
@@ -222,6 +258,9 @@ def build(run):
         elif k == "call.cancel":
             tr.append("cancel %d %d" % (ev[1], ev[2]))
             cur_req = req_by_ref.get(ev[2], cur_req)
+            if cur_req is not None and len(ev) > 4:
+                cur_req["call"] = ev[4]
+                cur_req["call_market"] = ev[1]
         elif k == "ret.cancel":
             cancellog_ref[id(ev[3])] = ev[2]
             if ev[2] in req_by_ref:
